@@ -334,10 +334,9 @@ def check_history(role, hist, delta, deviations=None):
                     viol.append((tag + ':abort-indication-fields', 'received A-ABORT (2,1) indicated as %r (%s)' % (st['inds'][0], where)))
                 if aev.startswith('P:rj') and st['inds'] and st['inds'][0][0] == 'A-ASSOCIATE-RJ' and st['inds'][0][1:] != (2, 1, 3):
                     viol.append((tag + ':rj-indication-fields', 'received RJ (2,1,3) indicated as %r (%s)' % (st['inds'][0], where)))
-                for x in st['inds']:
-                    if x[0] != 'DIMSE':
-                        continue
-                    base = aev.split(',')[-1].replace('+close', '') if aev.startswith('PP:') else aev.replace('+close', '')
+                comps = [c for c in (aev[3:] if aev.startswith('PP:') else aev).replace('+close', '').split(',') if c in ('P:c3n', 'P:d2')]
+                for k, x in enumerate([y for y in st['inds'] if y[0] == 'DIMSE']):
+                    base = comps[k] if k < len(comps) else None
                     want_len = {'P:c3n': None, 'P:d2': len(DATASET)}.get(base, 'any')
                     if x[1:3] != ('CStoreRQMessage', 3) or (want_len != 'any' and x[3] != want_len):
                         viol.append((tag + ':dimse-content', 'reassembled message %r, expected a C-STORE-RQ on context 3 with data set length %r (%s)' % (x, want_len, where)))
